@@ -47,6 +47,8 @@ def setup(rep, tier):
     rep.minimum('R05.10', 5)
     rep.minimum('R05.11', 5)
     rep.minimum('R05.12', 4)
+    rep.minimum('R05.13', 1)
+    rep.minimum('R05.14', 1)
 
 
 def local_key(f, name):
@@ -1142,7 +1144,119 @@ def r05_12(rep, prog):
     return n_
 
 
+# ------------------------------------------------------------------ R05.13
+def r05_13(rep, prog):
+    """"with OPUS_BITRATE_MAX it fills the output buffer (up to 1276 bytes when the packet holds a single frame)": on the
+    multi-frame path the length handed to the repacketizer for the caller's buffer is the whole buffer when the rate is
+    OPUS_BITRATE_MAX, CBR or not.  Decision table over (use_vbr, user_bitrate_bps == OPUS_BITRATE_MAX): the assignments to
+    that length that are feasible with CBR + MAX must all be the buffer size itself."""
+    f = prog.fn('opus_encode_native')
+    rep.functions.add(f.name)
+    cf = cfgm.CFG(f)
+    pd = f.param_index('data')
+    po = f.param_index('out_data_bytes')
+    lens = set()
+    for b, i, c in T.calls_to(cf, ('opus_repacketizer_out_range_impl',)):
+        if sx.kind(sx.strip(c[2][3])) == 'param' and sx.strip(c[2][3])[1] == pd and sx.kind(sx.strip(c[2][4])) == 'local':
+            lens.add(sx.strip(c[2][4])[2])
+    inst = '%s:opus_encode_native multi-frame CBR packet fills the buffer with OPUS_BITRATE_MAX' % prog.config
+    if len(lens) != 1:
+        rep.unresolved('R05.13', inst + ': the length passed to the repacketizer for the caller buffer was not identified')
+        return 0
+    lid = list(lens)[0]
+    kv = kb = None
+    for n in f.all_nodes():
+        if sx.kind(n) == 'field' and n[3] == 'use_vbr':
+            kv = sx.key(n)
+        if sx.kind(n) == 'field' and n[3] == 'user_bitrate_bps':
+            kb = sx.key(n)
+    if kv is None:
+        rep.unresolved('R05.13', inst + ': use_vbr is not read in opus_encode_native')
+        return 0
+    val = {kv: 0}
+    if kb is not None:
+        val[kb] = -1                  # a function that no longer reads the rate setting cannot tell MAX from any other rate
+    feas = decide.feasible_blocks(cf, val)
+    asg = [(b, i, n) for b, i, n in cf.find(lambda n: n[0] == 'assign' and sx.kind(sx.strip(n[1])) == 'local' and sx.strip(n[1])[2] == lid) if b in feas]
+    if not asg:
+        rep.unresolved('R05.13', inst + ': no feasible assignment of the length under CBR + OPUS_BITRATE_MAX')
+        return 0
+    bad = [n for b, i, n in asg if not (sx.kind(sx.strip(n[2])) == 'param' and sx.strip(n[2])[1] == po)]
+    where = '%s:%s' % (f.file, sx.line(asg[0][2]))
+    if bad:
+        rep.violated('R05.13', inst, '%s:%s' % (f.file, sx.line(bad[0])), 'with use_vbr == 0 and user_bitrate_bps == OPUS_BITRATE_MAX the length is `%s`, not the buffer size: a 100 ms packet in a 2000-byte buffer comes out as 1276 bytes' % sx.show(bad[0])[:60],
+                     key='native:multiframe-max-fill')
+    else:
+        rep.holds('R05.13', inst, where, '%d feasible assignment(s), all `= out_data_bytes`' % len(asg))
+    return 1
+
+
+# ------------------------------------------------------------------ R05.14
+def _size_bytes_table(prog):
+    """number of length bytes encode_size() emits for every frame size 0..1275, read off its branch conditions"""
+    f = prog.fn('encode_size')
+    cf = cfgm.CFG(f)
+    ps = ('param', f.param_index('size'))
+    out = {}
+    for sz in range(0, 1276):
+        feas = decide.feasible_blocks(cf, {ps: sz}, entry=True)
+        rv = {sx.int_val(sx.strip(r[1])) for b, i, r in T.returns_of(cf) if b in feas and len(r) > 1}
+        if len(rv) != 1 or None in rv:
+            return None
+        out[sz] = list(rv)[0]
+    return out
+
+
+def r05_14(rep, prog):
+    """multistream: every stream but the last is emitted self-delimited, which adds the length of its last frame (1 byte
+    below 252 bytes, 2 from there on - read off encode_size()).  The budget handed to such a stream is the room left
+    minus a reservation for that length; for EVERY room 2..7662 the stream's largest possible packet plus its length
+    bytes must still fit the room, or the next stream is left without its reserved minimum and the call fails."""
+    tb = _size_bytes_table(prog) if prog.has_fn('encode_size') else None
+    f = prog.fn('opus_multistream_encode_native')
+    rep.functions.add(f.name)
+    inst = '%s:opus_multistream_encode_native reserves enough for the self-delimiting length of every non-final stream' % prog.config
+    if tb is None:
+        rep.unresolved('R05.14', inst + ': encode_size() could not be tabulated')
+        return 0
+    site = None
+    for n in f.all_nodes():
+        if n[0] == 'cassign' and n[1] == '-' and sx.kind(sx.strip(n[2])) == 'local' and sx.kind(sx.strip(n[3])) == 'cond' and \
+                any(sx.key(y) == sx.key(sx.strip(n[2])) for y in sx.walk(sx.strip(n[3])[1])):
+            site = n
+    if site is None:
+        rep.unresolved('R05.14', inst + ': reservation statement `room -= room > k ? 2 : 1` not found')
+        return 0
+    k = sx.key(sx.strip(site[2]))
+    bad = None
+    nchk = 0
+    for room in range(2, 6 * 1275 + 12 + 1):
+        r = decide.ev3(site[3], {k: room})
+        if r is None:
+            rep.unresolved('R05.14', inst + ': cannot evaluate `%s`' % sx.show(site[3]), '%s:%s' % (f.file, sx.line(site)))
+            return 0
+        budget = room - r
+        if budget < 1:
+            continue
+        nchk += 1
+        frame = min(budget - 1, 1275)            # a one-frame packet: TOC + frame, the worst case for the length field
+        if budget + tb[frame] > room and budget <= 1276:
+            bad = (room, r, budget, frame, tb[frame])
+            break
+    where = '%s:%s' % (f.file, sx.line(site))
+    if bad:
+        rep.violated('R05.14', inst, where, 'with %d bytes of room the reservation is %d, the stream may emit %d bytes whose %d-byte frame needs %d length bytes: %d bytes in all' % (bad[0], bad[1], bad[2], bad[3], bad[4], bad[2] + bad[4]),
+                     key='ms:self-delimiting-reserve')
+    else:
+        rep.holds('R05.14', inst, where, '%d room sizes evaluated against encode_size()' % nchk)
+    return 1
+
+
 def check(rep, prog, tier):
+    if prog.config != 'custom':
+        r05_14(rep, prog)
+    if prog.config != 'custom':
+        r05_13(rep, prog)
     r05_12(rep, prog)
     if prog.config == 'custom':
         return
